@@ -4,6 +4,8 @@ package smt
 
 import (
 	"bufio"
+	"os"
+	"sync/atomic"
 	"fmt"
 	"io"
 	"os/exec"
@@ -30,8 +32,9 @@ type Stats struct {
 	Sat      int
 	Unsat    int
 	Unknown  int
-	Errors   int
-	SolverNs int64
+	Errors    int
+	Fallbacks int
+	SolverNs  int64
 }
 
 type Solver struct {
@@ -47,8 +50,9 @@ type Solver struct {
 	levels    []level // one per push
 	asserted  []*term.Term
 	Stats     Stats
-	Log       io.Writer // optional transcript
-	LastError string
+	Log        io.Writer // optional transcript
+	LastError  string
+	FallbackMs int // one-shot retry budget after an incremental "unknown" (0 = no retry)
 }
 
 type level struct {
@@ -303,6 +307,24 @@ func (s *Solver) Check(pc []*term.Term, extra []*term.Term, wantModel bool) (Res
 		s.Stats.Unknown++
 		return Unknown, nil
 	}
+	if res == Unknown && s.FallbackMs > 0 {
+		// the incremental core gave up: ask a fresh process, which uses the full preprocessing
+		// pipeline (tactics) instead of the incremental solver
+		if s.cmd != nil {
+			s.pop()
+		}
+		s.Stats.Fallbacks++
+		r2, m2 := oneShotModel(s.Bin, s.FallbackMs, pc, extra, wantModel)
+		switch r2 {
+		case Sat:
+			s.Stats.Sat++
+		case Unsat:
+			s.Stats.Unsat++
+		default:
+			s.Stats.Unknown++
+		}
+		return r2, m2
+	}
 	var model term.Model
 	if res == Sat && wantModel {
 		model = s.getModel()
@@ -334,6 +356,10 @@ func (s *Solver) readResult() (Result, bool) {
 	res := Unknown
 	got := false
 	bad := false
+	// watchdog: a solver that ignores its soft timeout is killed (the query counts as unknown)
+	proc := s.cmd.Process
+	wd := time.AfterFunc(time.Duration(s.TimeoutMs)*time.Millisecond*2+5*time.Second, func() { proc.Kill() })
+	defer wd.Stop()
 	for {
 		line, err := s.out.ReadString('\n')
 		if err != nil {
@@ -435,6 +461,46 @@ func (s *Solver) getModel() term.Model {
 		}
 	}
 	return m
+}
+
+var dumpSeq int32
+
+func oneShotModel(bin string, timeoutMs int, pc []*term.Term, extra []*term.Term, wantModel bool) (Result, term.Model) {
+	s := &Solver{Bin: bin, TimeoutMs: timeoutMs}
+	if d := os.Getenv("VERIF_DUMP_HARD"); d != "" {
+		n := atomic.AddInt32(&dumpSeq, 1)
+		if f, err := os.Create(fmt.Sprintf("%s/hard-%d-%d.smt2", d, os.Getpid(), n)); err == nil {
+			s.Log = f
+			defer f.Close()
+		}
+	}
+	if err := s.start(); err != nil {
+		return Unknown, nil
+	}
+	defer s.Close()
+	for _, p := range pc {
+		s.assert(p)
+	}
+	for _, e := range extra {
+		s.assert(e)
+	}
+	s.send("(check-sat)")
+	s.send("(echo \"@@done\")")
+	if err := s.in.Flush(); err != nil {
+		return Unknown, nil
+	}
+	r, ok := s.readResult()
+	if !ok {
+		return Unknown, nil
+	}
+	if r == Sat && wantModel {
+		m := s.getModel()
+		if m == nil {
+			return Unknown, nil
+		}
+		return Sat, m
+	}
+	return r, nil
 }
 
 // OneShot decides pc ∧ extra in a fresh process without incremental mode (different tactics);
